@@ -292,7 +292,11 @@ void anneal_puso(  // updates states and values in place
     }
 
     long *index = (long*)malloc(num_terms * sizeof(long));
-    index[0] = 0;
+    // there may be no terms at all (eg a model whose terms all cancelled),
+    // in which case `index` has no elements that we could write to.
+    if(num_terms) {
+        index[0] = 0;
+    }
     for(long term=0; term<num_terms; term++) {
         if(term) {
             index[term] = index[term-1] + num_couplings[term-1];
